@@ -5,7 +5,8 @@
 
 package goproxytest
 
-//@ property C20: (*Server).handler, handler$1, allHex, readArchive$1, readArchive$1$1, (*Server).readModList
+//@ property C20: (*Server).handler, handler$1, allHex, readArchive$1, readArchive$1$1, (*Server).readModList, par/(*Cache).Do, par/(*Cache).Get
+//@ bounded C20: TestVerifBoundedPseudo
 
 // libraries the handler delegates to (assumed; see DESIGN section 5 C20)
 //@ extern golang.org/x/mod/module.UnescapePath(escaped) (path, err)
